@@ -6,30 +6,43 @@
      track or Err(NoInitialParameters); for every set of tracks find_vertices returns; none of them panics; every
      returned track has finite parameters and t_inner, t_outer in [-pi, pi]; every returned vertex is finite.
 
-   LEVEL CLAIMED: proof of the CONTROL SKELETON, conditional on named numeric hypotheses.
+   LEVEL CLAIMED: proof of the CONTROL SKELETON, conditional on named numeric hypotheses that are stated RELATIVE TO THE
+   PARAMETER VECTORS THE OPTIMISER ACTUALLY PASSES TO THE COST FUNCTION.
+     The optimiser (argmin Executor + NelderMead) is a procedure that receives the cost function: an interaction tree
+     `tree simplex : strategy F` (coq/Recon/Fit.v: Ask p k / Done best / Crash), run by `run_strategy cost (tree simplex)`;
+     `asked cost (tree simplex)` is the list of vectors the cost function is called on.  Which vectors it asks is not
+     modelled (the tree is universally quantified).
      * C14_fit_skeleton_total: every unwrap / assert! / partial_cmp().unwrap() / index of fit_cluster_to_helix,
        three_template_points and Problem::cost succeeds, and NoInitialParameters is the only error, PROVIDED
-         (N1) partial_cmp of non-NaN numbers is Some                      (IEEE law)
-         (N2) the radii of the cluster are numbers: |p.r - (a.r + b.r)/2| is not NaN   (numeric fact, holds for finite radii)
-         (N3) the cost oracle norm_sqr(p, at(closest_t(p))) is never NaN   (NAMED GAP: binary64 Newton through glibc)
-         (N4) Nelder-Mead returns a parameter vector of the simplex dimension when the cost never panics
-                                                                           (NAMED GAP: argmin is not modelled)
-         (N5) the initial guess has 6 components, the sd tolerance is not negative; the cluster has >= 3 points.
+         (N1)  partial_cmp of non-NaN numbers is Some                                              (IEEE law)
+         (N2)  |p.r - (a.r + b.r)/2| is not NaN for points of the cluster                           (finite radii)
+         (N3e) NAMED NUMERIC GAP: on every vector the optimiser asks for THIS cluster, started from THIS cluster's initial
+               simplex, the cost function returns a `good` number -- by C14_cost_ok_iff: norm_sqr(q, at(closest_t(q))) is
+               not NaN for every point q of the cluster, i.e. the assert at track_fitting.rs:265 does not fire in this fit
+         (N4e) NAMED GAP (argmin not modelled): for this simplex the optimiser is well formed (wf_strategy good 6): while the
+               answers are good it asks vectors of dimension 6, does not fail by itself, and best_param is a vector it asked
+         the sd tolerance is not negative; the cluster has >= 3 points.
+       SATISFIABLE BY THE REAL CODE: with good := "not NaN" (N3e) holds of the implementation on exactly those clusters on
+       which the assert does not fire -- every cluster outside the open finding F9 that the harness has tried -- and (N4e)
+       is what argmin 0.8.1's NelderMead::init / next_iter do on non-NaN costs (read from its source, not proved).  The
+       former form "(N3) the cost kernel is not NaN for EVERY parameter vector" was false of every binary64 kernel
+       (p = [nan; ..] gives NaN): it survives only in Fit_proofs.fit_skeleton_total_lemma, which C09 still imports.
+       C14_fit_instance_binary64 instantiates all hypotheses with the real cost kernel of coq/Recon/Helix.v over binary64.
+     * C14_fit_skeleton_total_binary64: (N1), (N2) discharged for the binary64 instance (Flocq link).
      * C14_vertex_skeleton_total: likewise for find_vertices / beamline_clusters / the vertex cost, PROVIDED
          (V1) z of closest approach to the beamline is not NaN, (V2) sums of radii are not NaN,
-         (V3) the vertex cost oracle is never NaN (NAMED GAP), (V4) as (N4) (NAMED GAP),
-         (V5) the input tracks have no NaN field (what this property promises of the fit), so Track's PartialEq is
-              reflexive on them;  sort_unstable_by returns a permutation (std, not modelled).
+         (V3e), (V4e) as (N3e), (N4e) for the vertex cost function, the tracks the vertex fit is run on and dimension 3,
+         (V5) the input tracks have no NaN field, so Track's PartialEq is reflexive on them;
+         sort_unstable_by returns a permutation (std, not modelled).
        The position(..).unwrap() / swap_remove bookkeeping is proved by a multiset argument, not assumed.
-     * C14_t_range: t_inner and t_outer of a returned track are values of closest_t at points of the cluster, hence
-       (C14_t_range_binary64, through C16_closest_t_range_partial) NaN or in [-pi, pi].
-     * C14_t_not_nan: t_inner / t_outer of a returned track are not NaN (the cost function's assert has already
-       covered them), given only that the optimiser returns a vector it has evaluated.
-     * C14_fit_skeleton_total_binary64: (N1), (N2) discharged for the binary64 instance (Flocq link).
-     * C14_tinyphi_known_witness: the open finding `tinyphi` (where (N3) is false of the implementation).
+     * C14_t_range / C14_t_range_binary64: NO numeric hypothesis: t_inner and t_outer of a RETURNED track are values of
+       closest_t, hence (through C16_closest_t_range_partial, given atan2's range) NaN or in [-pi, pi].
+     * C14_t_not_nan: t_inner / t_outer of a returned track are not NaN, given that best_param is a vector on which the
+       cost function returned.
+     * C14_tinyphi_known_witness: the open finding `tinyphi` (F9), where (N3e) is false of the implementation.
    NOT PROVED (monitored on the implementation by the harness lines rel14p / rel14f / rel14v, a test):
-     (N3), (N4), (V3), (V4), finiteness of the returned parameters, NaN-freedom of t_inner / t_outer; totality of
-     cluster_spacepoints is the subject of C15 (cluster_terminates) and is exercised here by rel14p.
+     (N3e), (N4e), (V3e), (V4e), finiteness of the returned parameters; totality of cluster_spacepoints is the subject of
+     C15 (cluster_terminates) and is exercised here by rel14p.
 
    This file only pins statements; proofs are in Recon/Fit_proofs.v. *)
 From Coq Require Import PrimFloat Permutation.
@@ -42,23 +55,33 @@ Theorem C14_fit_skeleton_total :
     (fhalf fabs : F -> F) (fzero : F)
     (guess6 : list point -> point -> point -> point -> list F) (bump : F -> F)
     (point_val closest : list F -> point -> F)
-    (nm : (list F -> res F) -> list (list F) -> res (option (list F))) (sd_tol_ok : bool)
+    (tree : list (list F) -> strategy F) (good : F -> Prop) (sd_tol_ok : bool)
     (pts : list point),
   (* N1 *) (forall x y, fnan x = false -> fnan y = false -> fcmp x y <> None) ->
   (* N2 *) (forall a b p, In a pts -> In b pts -> In p pts ->
               fnan (dev F point p_r fsub fabs (fhalf (fadd (p_r a) (p_r b))) p) = false) ->
-  (* N3 *) (forall p q, In q pts -> fnan (point_val p q) = false) ->
-  (* N4 *) (forall (c : list F -> res F) s n,
-              (forall p, length p = n -> c p <> Panic /\ forall k, c p <> Err k) ->
-              Forall (fun v => length v = n) s -> s <> [] ->
-              exists v, nm c s = Ok (Some v) /\ length v = n) ->
-  (* N5 *) (forall f m l, length (guess6 pts f m l) = 6) -> sd_tol_ok = true -> 3 <= length pts ->
+  (* N3e *) (forall s, fit_simplex F point p_r p_x p_y flt feq fcmp fadd fsub fmul fhalf fabs guess6 bump pts = Ok s ->
+              forall p, In p (asked (cost F point fnan fadd fzero point_val pts) (tree s)) ->
+              exists y, cost F point fnan fadd fzero point_val pts p = Ok y /\ good y) ->
+  (* N4e *) (forall s, fit_simplex F point p_r p_x p_y flt feq fcmp fadd fsub fmul fhalf fabs guess6 bump pts = Ok s ->
+              wf_strategy good 6 [] (tree s)) ->
+  sd_tol_ok = true -> 3 <= length pts ->
   let fit := fit_cluster_to_helix F point p_r p_x p_y flt feq fcmp fnan fadd fsub fmul fhalf fabs fzero
-               guess6 bump point_val closest nm sd_tol_ok in
+               guess6 bump point_val closest (fun c s => run_strategy c (tree s)) sd_tol_ok in
   fit pts <> Panic /\ (forall k, fit pts = Err k -> k = E_noinit).
-Proof. exact fit_skeleton_total_lemma. Qed.
+Proof. exact fit_skeleton_total_evaluated_lemma. Qed.
 Print Assumptions C14_fit_skeleton_total.
 
+(* the meaning of (N3e): Problem::cost returns on a vector of six parameters iff the summand is not NaN at every point *)
+Theorem C14_cost_ok_iff :
+  forall (F point : Type) (fnan : F -> bool) (fadd : F -> F -> F) (fzero : F) (point_val : list F -> point -> F)
+    (pts : list point) (p : list F), length p = 6 ->
+  ((exists y, cost F point fnan fadd fzero point_val pts p = Ok y) <->
+   (forall q, In q pts -> fnan (point_val p q) = false)).
+Proof. exact cost_ok_iff. Qed.
+Print Assumptions C14_cost_ok_iff.
+
+(* no numeric hypothesis: any fit that RETURNS a track reports values of closest_t *)
 Theorem C14_t_range :
   forall (F point : Type) (p_r p_x p_y : point -> F) (flt feq : F -> F -> bool)
     (fcmp : F -> F -> option comparison) (fnan : F -> bool) (fadd fsub fmul : F -> F -> F)
@@ -66,49 +89,42 @@ Theorem C14_t_range :
     (guess6 : list point -> point -> point -> point -> list F) (bump : F -> F)
     (point_val closest : list F -> point -> F)
     (nm : (list F -> res F) -> list (list F) -> res (option (list F))) (sd_tol_ok : bool)
-    (pts : list point),
-  (forall x y, fnan x = false -> fnan y = false -> fcmp x y <> None) ->
-  (forall a b p, In a pts -> In b pts -> In p pts ->
-     fnan (dev F point p_r fsub fabs (fhalf (fadd (p_r a) (p_r b))) p) = false) ->
-  (forall p q, In q pts -> fnan (point_val p q) = false) ->
-  (forall (c : list F -> res F) s n,
-     (forall p, length p = n -> c p <> Panic /\ forall k, c p <> Err k) ->
-     Forall (fun v => length v = n) s -> s <> [] ->
-     exists v, nm c s = Ok (Some v) /\ length v = n) ->
-  (forall f m l, length (guess6 pts f m l) = 6) -> sd_tol_ok = true -> 3 <= length pts ->
-  forall (in_range : F -> Prop),
+    (pts : list point) (in_range : F -> Prop),
   (* the contract of closest_t: C16_closest_t_range_partial *)
   (forall hp q, in_range (closest hp q)) ->
   forall tr,
   fit_cluster_to_helix F point p_r p_x p_y flt feq fcmp fnan fadd fsub fmul fhalf fabs fzero
     guess6 bump point_val closest nm sd_tol_ok pts = Ok tr ->
   in_range (tr_t_inner F tr) /\ in_range (tr_t_outer F tr).
-Proof. exact fit_t_range_lemma. Qed.
+Proof. exact fit_t_range_min_lemma. Qed.
 Print Assumptions C14_t_range.
 
 Theorem C14_vertex_skeleton_total :
   forall (F point : Type) (fcmp : F -> F -> option comparison) (fnan : F -> bool) (fadd : F -> F -> F) (fzero : F)
-    (bump : F -> F) (nm : (list F -> res F) -> list (list F) -> res (option (list F))) (sd_tol_ok : bool)
+    (bump : F -> F) (tree : list (list F) -> strategy F) (good : F -> Prop) (sd_tol_ok : bool)
     (T : Type) (teq : T -> T -> bool) (t_zb t_rad : T -> F) (is_primary : T -> bool) (close_z : F -> F -> bool)
     (sumF : list F -> F) (mean_z : list T -> F) (sortP : list T -> list T) (vpoint_of : list F -> point)
     (vcost_val : list T -> list F -> T -> F) (vguess : F -> list F) (tclosest : T -> point -> F)
     (tracks : list T),
   (* std *) (forall l, Permutation (sortP l) l) ->
   (* V1 *) (forall a b, In a tracks -> In b tracks -> fcmp (t_zb a) (t_zb b) <> None) ->
-  (* V2 *) (forall x y, (forall t, In t x -> In t tracks) -> (forall t, In t y -> In t tracks) ->
-              fcmp (sumF (map t_rad x)) (sumF (map t_rad y)) <> None) ->
-  (* V3 *) (forall ts p t, fnan (vcost_val ts p t) = false) ->
-  (* V4 *) (forall (c : list F -> res F) s n,
-              (forall p, length p = n -> c p <> Panic /\ forall k, c p <> Err k) ->
-              Forall (fun v => length v = n) s -> s <> [] ->
-              exists v, nm c s = Ok (Some v) /\ length v = n) ->
-  (forall z, length (vguess z) = 3) -> sd_tol_ok = true ->
-  (* V5 *) (forall t, In t tracks -> teq t t = true) ->
   (forall a b, teq a b = true -> teq b a = true) ->
   (forall a b c, teq a b = true -> teq b c = true -> teq a c = true) ->
-  exists r, find_vertices F point fcmp fnan fadd fzero bump nm sd_tol_ok T teq t_zb t_rad is_primary close_z
-              sumF mean_z sortP vpoint_of vcost_val vguess tclosest tracks = Ok r.
-Proof. exact vertex_skeleton_total_lemma. Qed.
+  (* V2 *) (forall x y, (forall t, In t x -> In t tracks) -> (forall t, In t y -> In t tracks) ->
+              fcmp (sumF (map t_rad x)) (sumF (map t_rad y)) <> None) ->
+  (* V3e *) (forall ts mz s,
+               vertex_best F fcmp T t_zb t_rad is_primary close_z sumF mean_z sortP tracks = Ok (Some (ts, mz)) ->
+               initial_simplex F bump (vguess mz) = Ok s ->
+               forall p, In p (asked (vcost F fnan fadd fzero T vcost_val ts) (tree s)) ->
+               exists y, vcost F fnan fadd fzero T vcost_val ts p = Ok y /\ good y) ->
+  (* V4e *) (forall ts mz s,
+               vertex_best F fcmp T t_zb t_rad is_primary close_z sumF mean_z sortP tracks = Ok (Some (ts, mz)) ->
+               initial_simplex F bump (vguess mz) = Ok s -> wf_strategy good 3 [] (tree s)) ->
+  sd_tol_ok = true ->
+  (* V5 *) (forall t, In t tracks -> teq t t = true) ->
+  exists r, find_vertices F point fcmp fnan fadd fzero bump (fun c s => run_strategy c (tree s)) sd_tol_ok T teq t_zb
+              t_rad is_primary close_z sumF mean_z sortP vpoint_of vcost_val vguess tclosest tracks = Ok r.
+Proof. exact vertex_skeleton_total_evaluated_lemma. Qed.
 Print Assumptions C14_vertex_skeleton_total.
 
 (* the t reported with each track of the primary vertex is closest_t of that track at the vertex position *)
@@ -141,7 +157,24 @@ Theorem C14_vertex_t_range :
 Proof. exact vertex_t_range_lemma. Qed.
 Print Assumptions C14_vertex_t_range.
 
-(* the hypotheses are satisfiable: an exact instance (numbers = nat) where the conclusions are also computed *)
+(* the hypotheses are satisfiable by a binary64 instance with the REAL cost kernel (Fit.B64): the summand is
+   norm_sqr(q, helix.at(helix.closest_t(q, EPSILON, 20))) of coq/Recon/Helix.v (the model C16 ties bit for bit) over a
+   software libm; three points of a helix of radius 0.25 m and pitch 1 m; the optimiser asks the seven vertices of the
+   scipy-style simplex and one reflection (eight vectors, computed) and returns the best of them.  (N1) is the IEEE law,
+   (N2), (N3e) are computed on this instance, (N4e) is proved for the prober. *)
+Example C14_fit_instance_binary64 :
+  B64.fit B64.pts <> Panic /\ (forall k, B64.fit B64.pts = Err k -> k = E_noinit).
+Proof. exact B64_proofs.fit_total. Qed.
+Example C14_fit_instance_binary64_runs :
+  is_ok (B64.fit B64.pts) = true
+  /\ length (asked B64.the_cost (B64.tree B64.the_simplex)) = 8
+  /\ forallb (fun p => match B64.the_cost p with Ok y => negb (PrimFloat.is_nan y) | _ => false end)
+              (asked B64.the_cost (B64.tree B64.the_simplex)) = true
+  (* and the all-vectors form of the hypothesis is false of this kernel: a NaN parameter gives a NaN summand *)
+  /\ PrimFloat.is_nan (B64.real_point_val B64.soft_libm [PrimFloat.nan; 0; 0; 1; 0; 1]%float
+                         (mk_spoint 0x1.c28f5c28f5c29p-4 0x1.3333333333333p-2 0x1.999999999999ap-4)) = true.
+Proof. vm_compute. repeat split; reflexivity. Qed.
+(* exact instances (numbers = nat) of the older all-vectors form, which Signal/AvalTotal_proofs.v (C09) imports *)
 Example C14_fit_instance : forall pts, 3 <= length pts ->
   Toy.fit pts <> Panic /\ (forall k, Toy.fit pts = Err k -> k = E_noinit).
 Proof. exact Toy.fit_total. Qed.
@@ -154,46 +187,39 @@ Example C14_vertex_instance_runs :
 Proof. vm_compute. reflexivity. Qed.
 
 (* t_range over binary64: with the real closest_t (coq/Recon/Helix.v) as the kernel, t_inner and t_outer of a returned
-   track are NaN or in [-pi, pi] (through C16_closest_t_range_partial; standard FloatAxioms) *)
+   track are NaN or in [-pi, pi] (through C16_closest_t_range_partial; standard FloatAxioms); no other hypothesis *)
 From AG Require Recon.Helix_proofs.
 Theorem C14_t_range_binary64 :
   forall (L : libm) (tol : PrimFloat.float) (iters : nat),
   (forall y x, Helix_proofs.rn (latan2 L y x)) ->
   forall (flt feq : PrimFloat.float -> PrimFloat.float -> bool) fcmp fnan fadd fsub fmul fhalf fabs fzero
-    guess6 bump point_val nm sd_tol_ok (pts : list spoint),
-  (forall x y, fnan x = false -> fnan y = false -> fcmp x y <> None) ->
-  (forall a b p, In a pts -> In b pts -> In p pts ->
-     fnan (dev PrimFloat.float spoint sp_r fsub fabs (fhalf (fadd (sp_r a) (sp_r b))) p) = false) ->
-  (forall p q, In q pts -> fnan (point_val p q) = false) ->
-  (forall (c : list PrimFloat.float -> res PrimFloat.float) s n,
-     (forall p, length p = n -> c p <> Panic /\ forall k, c p <> Err k) ->
-     Forall (fun v => length v = n) s -> s <> [] ->
-     exists v, nm c s = Ok (Some v) /\ length v = n) ->
-  (forall f m l, length (guess6 pts f m l) = 6) -> sd_tol_ok = true -> 3 <= length pts ->
-  forall tr,
+    guess6 bump point_val nm sd_tol_ok (pts : list spoint) tr,
   fit_cluster_to_helix PrimFloat.float spoint sp_r (sp_x L) (sp_y L) flt feq fcmp fnan fadd fsub fmul fhalf fabs fzero
     guess6 bump point_val (fun hp q => closest_t L (helix_of_params hp) q tol iters) nm sd_tol_ok pts = Ok tr ->
   Helix_proofs.rn (tr_t_inner PrimFloat.float tr) /\ Helix_proofs.rn (tr_t_outer PrimFloat.float tr).
-Proof. exact fit_t_range_binary64_lemma. Qed.
+Proof. exact fit_t_range_binary64_min_lemma. Qed.
 Print Assumptions C14_t_range_binary64.
 
 (* fit_skeleton_total for the binary64 instance (the instance the differential tag fit3 runs): the IEEE hypotheses
    (N1), (N2) are discharged through Flocq's link to primitive floats — the radii only have to be finite with
-   |r| <= 1 m (Rabs_le1; the quantifier has r <= 0.25 m) — so only the genuinely numeric gaps (N3), (N4) remain *)
+   |r| <= 1 m (Rabs_le1; the quantifier has r <= 0.25 m) — so only the gaps (N3e), (N4e) remain *)
 Theorem C14_fit_skeleton_total_binary64 :
-  forall (L : libm) guess6 bump point_val closest nm sd_tol_ok (pts : list spoint),
+  forall (L : libm) guess6 bump point_val closest (tree : list (list PrimFloat.float) -> strategy PrimFloat.float)
+    (good : PrimFloat.float -> Prop) sd_tol_ok (pts : list spoint),
   (* radii *) (forall p, In p pts -> Fit_proofs.Rabs_le1 (sp_r p)) ->
-  (* N3 *) (forall p q, In q pts -> PrimFloat.is_nan (point_val p q) = false) ->
-  (* N4 *) (forall (c : list PrimFloat.float -> res PrimFloat.float) s n,
-     (forall p, length p = n -> c p <> Panic /\ forall k, c p <> Err k) ->
-     Forall (fun v => length v = n) s -> s <> [] ->
-     exists v, nm c s = Ok (Some v) /\ length v = n) ->
-  (* N5 *) (forall f m l, length (guess6 pts f m l) = 6) -> sd_tol_ok = true -> 3 <= length pts ->
+  (* N3e *) (forall s, fit_simplex PrimFloat.float spoint sp_r (sp_x L) (sp_y L) PrimFloat.ltb PrimFloat.eqb fcmp_prim
+               PrimFloat.add PrimFloat.sub PrimFloat.mul (fun x => PrimFloat.div x 2%float) PrimFloat.abs guess6 bump pts = Ok s ->
+     forall p, In p (asked (cost PrimFloat.float spoint PrimFloat.is_nan PrimFloat.add 0%float point_val pts) (tree s)) ->
+     exists y, cost PrimFloat.float spoint PrimFloat.is_nan PrimFloat.add 0%float point_val pts p = Ok y /\ good y) ->
+  (* N4e *) (forall s, fit_simplex PrimFloat.float spoint sp_r (sp_x L) (sp_y L) PrimFloat.ltb PrimFloat.eqb fcmp_prim
+               PrimFloat.add PrimFloat.sub PrimFloat.mul (fun x => PrimFloat.div x 2%float) PrimFloat.abs guess6 bump pts = Ok s ->
+     wf_strategy good 6 [] (tree s)) ->
+  sd_tol_ok = true -> 3 <= length pts ->
   let fit := fit_cluster_to_helix PrimFloat.float spoint sp_r (sp_x L) (sp_y L) PrimFloat.ltb PrimFloat.eqb fcmp_prim
                PrimFloat.is_nan PrimFloat.add PrimFloat.sub PrimFloat.mul (fun x => PrimFloat.div x 2%float)
-               PrimFloat.abs 0%float guess6 bump point_val closest nm sd_tol_ok in
+               PrimFloat.abs 0%float guess6 bump point_val closest (fun c s => run_strategy c (tree s)) sd_tol_ok in
   fit pts <> Panic /\ (forall k, fit pts = Err k -> k = E_noinit).
-Proof. exact fit_skeleton_total_binary64_lemma. Qed.
+Proof. exact fit_skeleton_total_evaluated_binary64_lemma. Qed.
 Print Assumptions C14_fit_skeleton_total_binary64.
 
 (* t_inner and t_outer of a returned track are NOT NaN — no totality hypothesis: the cost function has evaluated
@@ -217,13 +243,15 @@ Theorem C14_t_not_nan :
 Proof. exact fit_t_not_nan_lemma. Qed.
 Print Assumptions C14_t_not_nan.
 
-(* ---- OPEN FINDING `tinyphi` (harness tags rel14kf-tinyphi-*, corpus/C14/tinyphi.case) ----
-   On the class recognised by Fit.tinyphi_class the numeric hypothesis (N3) is false of the implementation (it panics at
-   track_fitting.rs:265).  The theorems above are conditional on (N3), so none of them is contradicted; they say nothing
-   on this class.  Pinned here: the witness is in the class, and already in the binary64 model closest_t of the fit's
-   initial guess is NaN because e = 4 pi^2 r R / h^2 = inf/inf. *)
+(* ---- OPEN FINDING `tinyphi`, F9 (harness tags rel14kf-tinyphi-*, corpus/C14/tinyphi.case) ----
+   On the class recognised by Fit.tinyphi_class (template circle radius >= 1e136 m, template points not collinear in the
+   sense of the code; the same operations as the harness recogniser, tied by the differential tag cls14) the numeric
+   hypothesis (N3e) is false of the implementation for almost every member with radius >= 1e138 m (it panics at
+   track_fitting.rs:265).  The theorems above are conditional on (N3e), so none of them is contradicted; they say nothing
+   there.  Pinned here: the witness is in the class, and already in the binary64 model closest_t of the fit's initial
+   guess is NaN because e = 4 pi^2 r R / h^2 = inf/inf. *)
 Theorem C14_tinyphi_known_witness :
-  tinyphi_class tinyphi_witness = true
+  tinyphi_class tinyphi_libm tinyphi_witness = true
   /\ match tinyphi_witness with
      | p :: _ => PrimFloat.is_nan (closest_t tinyphi_libm tinyphi_guess p EPS 20) = true
                  /\ PrimFloat.is_nan (kf_e (kepler_setup tinyphi_libm tinyphi_guess p)) = true
